@@ -1479,4 +1479,108 @@ theorem run_cycleIncr (img : Image) (s : State) (pc : Nat) (vars : List (LoopVar
     · intro l hl; exact getLV_setLV_other _ _ _ _ hl
 
 
+/-! ## `repeat n with v from a to b` -/
+
+theorem interp_pre_eq (v : String) (nv av bv : Val) :
+    genRv (.lit nv) (.to counter) ++ indexVarRange v (.lit av) (.lit bv) false =
+      [Instr.moveq nv (.loopVar .counter)] ++
+      ([Instr.moveq av (.loopVar .first), .moveq bv (.loopVar .last),
+        .move (.loopVar .first) (.var v)] ++ calcIncr) := by
+  simp [indexVarRange, genRv, counter]
+
+/-- **interp prologue.**  `genRv n → counter; indexVarRange v a b false` with literals. -/
+theorem interp_prologue (img : Image) (s0 : State) (pc h : Nat) (rest : List Frame) (v : String)
+    (nv av bv : Val) (c x y : Rat) (fl fx fy : Bool)
+    (hs : s0.status = .running) (hpc : s0.pc = (pc : Int))
+    (hc : CodeAt img pc (genRv (.lit nv) (.to counter) ++ indexVarRange v (.lit av) (.lit bv) false))
+    (hst : s0.stack = .loop [] h :: rest) (hconst : s0.constants.get v = none)
+    (hscope : ScopeOk s0.stack) (hnv : Num nv c fl) (hav : Num av x fx) (hbv : Num bv y fy) :
+    ∃ k s1 vars rest1, run img k s0 = s1 ∧ s1.status = .running ∧
+      s1.pc = (pc : Int) + 19 ∧ s1.eval = s0.eval ∧
+      s1.stack = .loop vars h :: rest1 ∧
+      Num (getLV vars .counter) c fl ∧
+      Num (getLV vars .incr) (if c = 1 then 0 else (y - x) / (c - 1)) (!decide (c = 1)) ∧
+      s1.getVariable v = av ∧ s1.constants = s0.constants ∧ ScopeOk s1.stack := by
+  rw [interp_pre_eq] at hc
+  let v0 := setLV [] .counter nv
+  let sa : State := { s0 with pc := (pc : Int) + 1, stack := .loop v0 h :: rest }
+  have ha : run img 1 s0 = sa :=
+    run_moveq_lv img s0 pc .counter nv [] h rest hs hpc (by have := hc.left.head; simpa using this) hst
+  have hcr := hc.right
+  simp only [List.length_cons, List.length_nil] at hcr
+  obtain ⟨s3, rest1, hr3, hs3, hpc3, hev3, hst3, hgv3, hcon3, hsc3, _⟩ :=
+    run_bounds_lit img sa (pc + 1) h rest v av bv v0 (by exact hs) (by simp [sa]) hcr.left rfl
+      (by exact hconst) (by rw [hst] at hscope; exact hscope.retop)
+  have hcnt : Num (getLV (setLV (setLV v0 .first av) .last bv) .counter) c fl := by
+    rw [getLV_setLV_other _ _ _ _ (by simp), getLV_setLV_other _ _ _ _ (by simp), getLV_setLV_self]
+    exact hnv
+  have hf : Num (getLV (setLV (setLV v0 .first av) .last bv) .first) x fx := by
+    rw [getLV_setLV_other _ _ _ _ (by simp), getLV_setLV_self]; exact hav
+  have hl : Num (getLV (setLV (setLV v0 .first av) .last bv) .last) y fy := by
+    rw [getLV_setLV_self]; exact hbv
+  obtain ⟨k, vars', hrun, hinc, hoth⟩ := run_calcIncr img s3 (pc + 1 + 3) _ h rest1 c x y fl fx fy hs3
+    (by rw [hpc3]; simp) (by have := hcr.right; simpa using this) hst3 hcnt hf hl
+  refine ⟨1 + (3 + k), _, vars', rest1, run_trans ha (run_trans hr3 hrun), hs3, ?_, hev3, rfl, ?_, hinc, ?_,
+    hcon3, ?_⟩
+  · simp; omega
+  · rw [hoth _ (by simp)]; exact hcnt
+  · rw [← hgv3]
+    exact getVariable_retop s3 _ _ vars' h h rest1 v hst3 rfl rfl rfl
+  · rw [hst3] at hsc3; exact hsc3.retop
+
+/-- **interp_loop (chain form).**  `repeat n with v from a to b` with literal numbers `n`, `a`,
+`b` (values `c`, `x`, `y`) and a body that does not assign `v`: `passes c` passes (for an integer
+`n ≥ 0`: `n`); at the start of pass `k` the variable `v` holds a number whose exact value is
+`x + k·(y − x)/(c − 1)` — so `a` in the first and, for an integer `n ≥ 2`, `b` in the last pass
+(`C04_interp_last`) — `n = 1` gives the single value `a`, `n = 0` no pass. -/
+theorem C04_interp_loop_chain (img : Image) (P0 : Nat) (b : List Instr) (v : String) (nv av bv : Val)
+    (c x y : Rat) (fl fx fy : Bool) (hnv : Num nv c fl) (hav : Num av x fx) (hbv : Num bv y fy)
+    (hc : CodeAt img P0 (unG (assembleLoop
+      (genRv (.lit nv) (.to counter) ++ indexVarRange v (.lit av) (.lit bv) false) counterTest []
+      (ins b) (loopPost (some v)))))
+    (s : State) (hs : s.status = .running) (hpc : s.pc = (P0 : Int))
+    (hconst : s.constants.get v = none) (hscope : ScopeOk s.stack) :
+    ∃ s1 vars rest1, (∃ k, run img k s = s1) ∧ s1.status = .running ∧
+      s1.stack = .loop vars s.eval.length :: rest1 ∧ s1.getVariable v = av ∧
+      s1.constants.get v = none ∧ ScopeOk s1.stack ∧
+      ∀ (ts : List State) (s' : State),
+        Passes (BodyRunV img b v) (enterBody (P0 + 1 + 19 + 5)) (varPost (P0 + 1 + 19) v) s1 ts s' →
+        ts.length = passes c →
+        (∃ k, run img k s = exitLoop (P0 + (b.length + 35)) s') ∧
+        (exitLoop (P0 + (b.length + 35)) s').eval = s.eval ∧
+        (∃ vars' rest', s'.stack = .loop vars' s.eval.length :: rest') ∧
+        (∀ k (hk : k < ts.length), ∃ f,
+          Num (ts[k].getVariable v) (x + (k : Rat) * (if c = 1 then 0 else (y - x) / (c - 1))) f) := by
+  have hprelen : (genRv (.lit nv) (.to counter) ++ indexVarRange v (.lit av) (.lit bv) false).length = 19 := by
+    rw [interp_pre_eq]; rfl
+  have hlenAll : (unG (assembleLoop
+      (genRv (.lit nv) (.to counter) ++ indexVarRange v (.lit av) (.lit bv) false) counterTest []
+      (ins b) (loopPost (some v)))).length = b.length + 35 := by
+    rw [assembled_length, hprelen, loopPost_some_length]; omega
+  rw [assembled_counted] at hc hlenAll
+  obtain ⟨hL, hPre, _, _⟩ := loopCode_parts hc
+  obtain ⟨k0, s1, vars, rest1, hrun, hr1, hpc1, hev1, hst1, hcnt, hinc, hgv, hcon1, hsc1⟩ :=
+    interp_prologue img (afterLoop s) (P0 + 1) s.eval.length s.stack v nv av bv c x y fl fx fy
+      (by exact hs) (by simp [afterLoop, hpc]) hPre rfl (by exact hconst) (ScopeOk.cons_loop hscope) hnv hav hbv
+  refine ⟨s1, vars, rest1, ⟨1 + k0, run_trans (run_loop_instr img s P0 hs hpc hL) hrun⟩, hr1, hst1, hgv,
+    by rw [hcon1]; exact hconst, hsc1, ?_⟩
+  intro ts s' hp hlen
+  obtain ⟨hrun', hev', hfr', hvals, _⟩ := var_loop_whole img P0 _ b v hc s s1 hs hpc ⟨k0, hrun⟩ hr1
+    (by rw [hpc1, hprelen]; simp) hev1 vars rest1 _ _ _ _ x fx hst1 hcnt hinc (by rw [hgv]; exact hav)
+    ts s' (by rw [hprelen]; exact hp) hlen
+  rw [hlenAll] at hrun' hev'
+  refine ⟨hrun', hev', hfr', ?_⟩
+  intro k hk
+  rw [hvals k hk, hgv]
+  exact ⟨_, C04_series_closed_form av _ x _ fx _ hav hinc k⟩
+
+/-- both ends are included: with a count `c ≠ 1` the value of pass `c − 1` is the upper bound -/
+theorem C04_interp_last (x y c : Rat) (hc : c ≠ 1) :
+    x + (c - 1) * (if c = 1 then 0 else (y - x) / (c - 1)) = y := by
+  have h1 : c - 1 ≠ 0 := by grind
+  rw [if_neg hc, Rat.div_def, ← Rat.mul_assoc, Rat.mul_comm (c - 1), Rat.mul_assoc,
+    Rat.mul_inv_cancel _ h1]
+  grind
+
+
 end Bardolph
